@@ -502,22 +502,13 @@ pub fn finish(report: Report, spec: EvidenceSpec) -> i32 {
             e.0 += v.0;
         }
     }
-    // samples: round-robin over shards, capped
-    let mut i = 0;
-    loop {
-        let mut any = false;
-        for c in &report.ctxs {
-            if let Some(s) = c.samples.get(i) {
-                any = true;
-                if samples.len() < 12 {
-                    samples.push(s.clone());
-                }
-            }
+    // samples: one per shard, taken at different depths of the run (early golden cases as well
+    // as late generated ones), capped
+    for (k, c) in report.ctxs.iter().enumerate() {
+        if !c.samples.is_empty() && samples.len() < 12 {
+            let i = (c.samples.len() - 1).saturating_sub(k % c.samples.len());
+            samples.push(c.samples[i].clone());
         }
-        if !any || samples.len() >= 12 {
-            break;
-        }
-        i += 1;
     }
     let mut infra = false;
     let mut real: Vec<&Violation> = vec![];
